@@ -12,7 +12,7 @@ from .envctl import MachineryError
 def universe(protocol):
     base = ['', 'a', 'b', 'ab', '1', 'é', b'', b'a', b'ab', b'1', 0, 1, -1, 2, 2 ** 53, 2 ** 53 + 1, 2 ** 63 - 1, -2 ** 63,
             2 ** 63, 2 ** 64, -2 ** 63 - 1, 2 ** 70, 0.0, -0.0, 1.0, -1.0, 0.5, 2.0 ** 53, 2.0 ** 63, 2.0 ** 64, float('inf'),
-            5e-324, 2.0 ** 70, True, False, None, (), (1,), (1, 2), ('a',), (1.0,), (True,), frozenset([1]), (None,), ((1,),)]
+            5e-324, 2.0 ** 70, -2.0 ** 63, -2.0 ** 64, True, False, None, (), (1,), (1, 2), ('a',), (1.0,), (True,), frozenset([1]), (None,), ((1,),)]
     out = list(base)
     # bytes keys equal to the serialized form of other (non-native) keys
     for k in [True, None, (1,), (1, 2), 2 ** 63, 2 ** 70, frozenset([1])]:
@@ -79,7 +79,19 @@ def run_pairs(pairs, protocol, seed=0, tid=1):
                 p2 = 'raised ' + type(exc).__name__
             left = len(c)
             g1b = c.get(k1, default='<none>')
+            # membership and add of the second key next to the first
+            c.clear()
+            c.set(k1, 'v1')
+            in2 = 1 if k2 in c else 0
+            try:
+                a2 = 1 if c.add(k2, 'a2') else 0
+            except Exception:
+                a2 = -1
+            an = len(c)
+            ag1 = c.get(k1, default='<none>')
+            ag2 = c.get(k2, default='<none>')
             ev.append({'ev': 'pair', 'k1': D[i], 'k2': D[j], 'n': n, 'g1': g1, 'g2': g2, 'first_ok': first_ok,
+                       'in2': in2, 'a2': a2, 'an': an, 'ag1': ag1, 'ag2': ag2,
                        'types_ok': types_ok, 'rev_ok': rev_ok, 'p2': p2, 'left': left, 'g1b': g1b,
                        'r1': repr(k1)[:40], 'r2': repr(k2)[:40]})
         c.close()
